@@ -6,9 +6,16 @@
      clientid bb <cap> <ev,ev,…>          ev = c<id16hex>:x<hex of client_ip>:<parsed> | a<id16hex> | t<k>
         -> <r,r,…>   RemoteAddr() of the connection accepted for each a-event (new session, first
                      stream) and t-event (a further stream of the k-th session): n | x<hex>
-     clientid bb0 …                       same for the pinned (v0) acceptStreams *)
+     clientid bb0 …                       same for the pinned (v0) acceptStreams
+     clientid burst <cap> <ev,ev,…>       ev as for bb, or a burst  b<m>+<item>+<item>…  with
+                                          item = <id16hex>.<streams>.<rank>: the sessions of the items are
+                                          accepted back to back (m = how the driver delivers their first
+                                          packets: 1 | n | w, not used here), their goroutines start in the
+                                          order of the ranks, then the remaining streams round robin
+                                          (Model/ServerAccept.v burst_labels, run on the interleaving machine)
+        -> <r,r,…>   as for bb; a burst yields, item by item, RemoteAddr() of each of its connections *)
 From Coq Require Import List NArith Bool Arith String.
-From Snow Require Import Lib.Wire Model.ClientIdRing Model.ClientAddr Model.ServerCarrier.
+From Snow Require Import Lib.Wire Model.ClientIdRing Model.ClientAddr Model.ServerCarrier Model.ServerAccept.
 Import ListNotations.
 Open Scope N_scope.
 
@@ -70,6 +77,23 @@ Definition ev_parse (t : bytes) : option event :=
   | _ => None
   end.
 
+Definition PLUS : N := 43.
+
+Definition bitem_parse (t : bytes) : option bitem :=
+  match split_on DOT t with
+  | [i; n; r] => match id_parse i, dec_parse_nat n, dec_parse_nat r with
+                 | Some k, Some n', Some r' => Some (k, n', r')
+                 | _, _, _ => None
+                 end
+  | _ => None
+  end.
+
+Definition btok_parse (t : bytes) : option btok :=
+  match t with
+  | 98 :: _ :: 43 :: r => option_map BBurst (map_opt bitem_parse (split_on PLUS r))
+  | _ => option_map BEv (ev_parse t)
+  end.
+
 Definition get_print (g : option addr) : bytes :=
   match g with None => bs "_" | Some a => addr_print a end.
 
@@ -99,6 +123,11 @@ Definition run (args : list bytes) : bytes :=
       else if beq o (bs "bb0") then
         match dec_parse_nat a, list_parse ev_parse b with
         | Some cap, Some evs => list_print (map (fun c => addr_print (snd c)) (run_conns_v0 cap evs))
+        | _, _ => ERR_BADCASE
+        end
+      else if beq o (bs "burst") then
+        match dec_parse_nat a, list_parse btok_parse b with
+        | Some cap, Some toks => list_print (map addr_print (brun InGoroutine (ainit cap) 0 toks))
         | _, _ => ERR_BADCASE
         end
       else ERR_BADCASE
